@@ -226,9 +226,9 @@ def Obj.moduleName : Obj → Bytes
     | _ => []
   | _ => []
 
-/-- Encode→Decode without the fix-up: singletons become fresh copies (the `Bool` value survives through
-its GobEncode/GobDecode pair), user functions lose their Go func, function pointers become fresh
-(`fresh` numbers them), everything else is rebuilt field by field. -/
+/-- Encode→Decode without the fix-up, on one node: singletons become fresh copies (the `Bool` value survives
+through its GobEncode/GobDecode pair), user functions lose their Go func, everything else is rebuilt field by
+field (pointer sharing between pool entries is lost: `ptr` of a decoded function means nothing any more). -/
 def wire : Obj → Obj
   | .undef _ => .undef false
   | .bool v _ => .bool v false
